@@ -78,6 +78,14 @@ int sqfs_super_read(sqfs_super_t *super, sqfs_file_t *file)
 	if (temp.id_count == 0)
 		return SQFS_ERROR_CORRUPTED;
 
+	if (temp.flags & SQFS_FLAG_EXPORTABLE) {
+		if (temp.export_table_start >= temp.bytes_used)
+			return SQFS_ERROR_CORRUPTED;
+	} else if (temp.export_table_start != 0xFFFFFFFFFFFFFFFFUL &&
+		   temp.export_table_start >= temp.bytes_used) {
+		return SQFS_ERROR_CORRUPTED;
+	}
+
 	memcpy(super, &temp, sizeof(temp));
 	return 0;
 }
